@@ -4,6 +4,7 @@ import re
 
 from .. import rx
 from .. import vocab as VC
+from .. import miniev as ME
 from ..astutil import src, is_name, is_attr, Guards
 from ..cg import get_cg
 from ..fold import TT, NotConst
@@ -69,6 +70,7 @@ def run(ctx):
     from .. import rules_lexer as RL_
     ctx.rule('R11.S', 'Lexer.get_tokens interpreted on short texts agrees token by token with the rule-table model the other rules use', floor=1)
     RL_.check_scan_semantics(ctx, 'R11.S')
+    check_splitter_ws_invariance(ctx)
     ctx.rule('R11.B', 'base model: token-type containment, token flags / normal form, Token.match and imt behave as the abstract evaluation assumes', floor=1)
     RB.check_base_model(ctx, 'R11.B', parts=('contains', 'flags', 'match', 'imt', 'nav'))
     # the vocabulary argument is about one scan of the whole text and one splitter pass over its tokens: a front end that
@@ -280,6 +282,52 @@ def check_ws_identity(ctx):
                        f'`{src(c)}` tests membership in the display {tuple(repr(x) for x in v)}: that is equality with {anc[0]!r}, which a line break '
                        '(Whitespace.Newline) does not satisfy -- a line break instead of a blank between two tokens changes the outcome')
     ctx.ob('R11.5', 'inventory', 'sqlparse/sql.py', f'no identity/equality test against T.Whitespace in the parse path ({n} found; {m} membership tests in displays looked at)', n == 0, '')
+
+
+def check_splitter_ws_invariance(ctx):
+    """StatementSplitter.process interpreted on the token streams of procedural and plain scripts, once with a blank between the tokens
+    and again with a tab, a line break, a blank and a line break, CRLF: where the statements end must not depend on it."""
+    from . import c17
+    ctx.rule('R11.11', 'StatementSplitter.process interpreted on token streams: the statement boundaries do not depend on the kind of whitespace between the tokens', floor=1)
+    V = VC.get_vocab(ctx)
+    f = ctx.repo.func(c17.SPLITTER + '.process')
+    loc = f'{f.mod.relpath}:{f.node.lineno}'
+    WSP, NL = TT(('Text', 'Whitespace')), TT(('Text', 'Whitespace', 'Newline'))
+    scripts = {name: c17.PRE + 'BEGIN ' + (body.format('') if name in c17.BODY else body) + c17.POST for name, body in list(c17.BODY.items()) + list(c17.LEAF.items())}
+    scripts.update({
+        'DDL with IF EXISTS in a body': c17.PRE + 'BEGIN DROP TABLE IF EXISTS t ; CREATE TABLE IF NOT EXISTS u ( a int ) ; SELECT 1 ; END ;! SELECT 9 ;!',
+        'plain statements': 'SELECT 1 ;! BEGIN ;! SELECT 2 ;! END ;! DROP TABLE IF EXISTS t ;! SELECT ( 3 ) ;!',
+        'declare before begin': 'SELECT 0 ;! CREATE FUNCTION f ( ) RETURNS int AS DECLARE x int ; BEGIN SELECT 1 ; END ;! SELECT 9 ;!',
+        'batch separator': 'SELECT 1 GO SELECT 2 ;! SELECT 3 ;!',
+    })
+    kinds = {'a tab': [(WSP, '\t')], 'a line break': [(NL, '\n')], 'a blank and a line break': [(WSP, ' '), (NL, '\n')], 'CRLF': [(NL, '\r\n')],
+             'a line break and two blanks': [(NL, '\n'), (WSP, ' '), (WSP, ' ')]}
+    diffs, n = [], 0
+    for name, script in scripts.items():
+        try:
+            ref = [(k, sp) for k, sp, _, _ in c17.simulate_process(ctx, V, script)]
+        except (ME.Unsupported, ME.Unknown) as e:
+            ctx.ob('R11.11', 'simulation', loc, 'StatementSplitter.process is evaluable on token streams', None, f'{name}: {e}')
+            return
+        except ME.Crash as e:
+            ref = f'crash: {e}'
+        for label, between in kinds.items():
+            c17.SPELLING['between'] = between
+            try:
+                got = [(k, sp) for k, sp, _, _ in c17.simulate_process(ctx, V, script)]
+            except (ME.Unsupported, ME.Unknown) as e:
+                ctx.ob('R11.11', 'simulation', loc, 'StatementSplitter.process is evaluable on token streams', None, f'{name} with {label}: {e}')
+                return
+            except ME.Crash as e:
+                got = f'crash: {e}'
+            finally:
+                c17.SPELLING.pop('between', None)
+            n += 1
+            if got != ref:
+                at = next((i for i, (a, b) in enumerate(zip(ref, got)) if a != b), None) if isinstance(ref, list) and isinstance(got, list) else None
+                diffs.append(f'{name} with {label} between the tokens: ' + (f'terminator #{at + 1} {"ends" if got[at][1] else "does not end"} a statement, with single blanks it '
+                                                                            f'{"does" if ref[at][1] else "does not"}' if at is not None else f'{got} instead of {ref}'))
+    ctx.ob('R11.11', 'simulation', loc, f'{n} (script, whitespace kind) combinations split where the single-blank spelling splits', not diffs, f'{len(diffs)} differ, e.g. {diffs[:2]}')
 
 
 def canon(node):
